@@ -1,25 +1,33 @@
 #!/usr/bin/env python3
-"""repin.py <binding.json> <file|Impl::fn> ...   -- rewrite the pinned operation table of the named functions of a
-binding from the CURRENT source of /repo (after a deliberate, reviewed change of that function: a fix: commit).
+"""repin.py [--ctl] <binding.json> <file|Impl::fn> ...   -- rewrite the pinned operation table of the named functions of
+a binding from the CURRENT source of /repo (after a deliberate, reviewed change of that function: a fix: commit).
+--ctl: write the table WITH the branch skeleton (`pinned_ctl`: keywords if / else / match / loop / while / for / return /
+break / continue / `?` in source order between the operations) instead of the plain operation table.
 Prints the old and the new table so that the difference can be reviewed; never run by a check."""
 import json, sys, os
 sys.path.insert(0, os.path.dirname(os.path.abspath(__file__)))
 import siteaudit as SA
-b = json.load(open(sys.argv[1]))
-sites = SA.audit("/repo", calls=set(b.get("pinned_calls", [])))
+args = sys.argv[1:]
+ctl = args and args[0] == "--ctl"
+if ctl:
+    args = args[1:]
+b = json.load(open(args[0]))
+sites = SA.audit("/repo", calls=set(b.get("pinned_calls", [])), ctl=ctl)
 calls = set("call." + c for c in b.get("pinned_calls", []))
 cur = {}
 for s in sites:
     if s["op"].startswith("call.") and s["op"] not in calls:
         continue
     cur.setdefault(f'{s["file"]}|{s["fn"]}', []).append([s["recv"], s["op"], ",".join(s["orderings"])])
-for fn in sys.argv[2:]:
-    old = b["pinned"].get(fn)
+key = "pinned_ctl" if ctl else "pinned"
+b.setdefault(key, {})
+for fn in args[1:]:
+    old = b[key].get(fn)
     new = cur.get(fn)
     print(fn)
     print("  old:", [f"{r}.{o}" for r, o, _ in (old or [])])
     print("  new:", [f"{r}.{o}" for r, o, _ in (new or [])])
     if new is None:
         print("  NOT FOUND in the current source"); continue
-    b["pinned"][fn] = new
-json.dump(b, open(sys.argv[1], "w"), indent=1)
+    b[key][fn] = new
+json.dump(b, open(args[0], "w"), indent=1)
